@@ -39,6 +39,10 @@ ASSUMPTIONS = [
     "type names starting with 'sqlite_' are not generated (SQLite reserves that prefix for its own tables)",
     "names of one case never differ only in letter case, except in the dedicated collision cases, which are classified as the "
     "known finding sqlite-case-insensitive-identifiers",
+    "unmappable records (integer beyond 64 bits, text with a lone surrogate) appear only in the dedicated 'refuse' histories: they may be "
+    "refused (then nothing of them is stored and nothing else is lost) or stored (then the unmappable field is not compared)",
+    "the reader-lock fault shortens the writer's lock wait with PRAGMA busy_timeout through the writer's `con` attribute when it exists "
+    "(otherwise sqlite3's default 5 s applies); a flush()/close() that raises under the lock is accepted, a silent return must have committed",
     "a field never changes its type between the versions of a same-named type; versions may gain fields, drop fields and bring new ones",
     "integer-like field types outside the five classes (boolean, uint16, uint32, filesize, unix_file_mode) may come back either as "
     "their text form or as the same integer",
@@ -93,11 +97,18 @@ def generate(ctx):
             kind = "evolve"  # one type, three versions
         elif i % 10 == 1:
             kind = "sqlite-names"  # type names that start with "sqlite" without being the reserved "sqlite_" prefix
+        elif i % 10 == 4:
+            kind = "refuse"  # unmappable records (refused by SQLite) between accepted ones, at every position of a batch
+        elif i % 10 == 6 and i % 20 == 6:
+            kind = "locked"  # another connection holds an unfinished SELECT while the writer commits
         elif i % 10 == 2:
             kind = "dt-equal"  # timestamps that compare equal without being the same value, inside one database
         elif i % 10 == 9:
             kind = "sideways"  # later versions drop fields and bring new ones (not a superset of the table)
         yield {"k": kind, "s": subseed("c18", ctx.seed, ctx.shard, i)}
+    # relative database paths while the application changes its working directory: one child process per shard (thorough: 3)
+    for r in range(1 if ctx.quick else 3):
+        yield {"k": "cwd", "s": subseed("c18", ctx.seed, ctx.shard, "cwd", r)}
 
 
 # ---- workload ---------------------------------------------------------------------------------------
@@ -261,6 +272,8 @@ def build_case(case, thorough=False):
             tnames = ["t/x", "t/X"]
     if kind == "dt-equal":
         return build_dt_equal(rng, tnames, thorough)
+    if kind == "refuse":
+        return build_refuse(rng, tnames, thorough)
     versions = []
     for t in tnames:
         taken = {"a", "key", "select"} if kind in ("collide-fields", "collide-evolve") else set()
@@ -353,6 +366,41 @@ def build_dt_equal(rng, tnames, thorough):
         if rng.random() < 0.5:
             kw["_generated"] = values[(i * 7 + 3) % len(values)]
         plan.append(("w", vi, kw))
+        if rng.random() < 0.08:
+            plan.append(("f",))
+    return versions, plan
+
+
+BAD_INTS = [2**63, -(2**63) - 1, 2**64 + 5, 10**30]
+BAD_TEXTS = [b"caf\xe9".decode("utf-8", "surrogateescape"), "\udcff", "ok \udc80 tail"]
+
+
+def build_refuse(rng, tnames, thorough):
+    """1-2 single-version types; a run of mappable records with unmappable ones (integer beyond 64 bits, text with a lone
+    surrogate) at chosen positions - with five batch sizes per history a refusal falls on the first, a middle and the last
+    record of a batch and exactly on a boundary.  The application catches the error and carries on."""
+    versions = []
+    for t in tnames[:2]:
+        taken = set()
+        names = _unique(rng, _field_name, 4, taken)
+        versions.append((t, [("string", names[0]), ("varint", names[1]), ("string", names[2]), ("bytes", names[3])]))
+    n = rng.choice([7, 9, 12]) if not thorough else rng.choice([9, 14, 21, 30])
+    nbad = rng.choice([1, 1, 2, 3])
+    bad_at = set(rng.sample(range(n), nbad))
+    plan = []
+    for i in range(n):
+        vi = rng.randrange(len(versions))
+        fl = versions[vi][1]
+        kw = {fname: _value(rng, ftype) for ftype, fname in fl}
+        if i in bad_at:
+            if rng.random() < 0.5:
+                kw[fl[1][1]] = rng.choice(BAD_INTS)
+                plan.append(("w", vi, kw, fl[1][1]))
+            else:
+                kw[fl[2][1]] = rng.choice(BAD_TEXTS)
+                plan.append(("w", vi, kw, fl[2][1]))
+        else:
+            plan.append(("w", vi, kw))
         if rng.random() < 0.08:
             plan.append(("f",))
     return versions, plan
@@ -480,7 +528,7 @@ RESERVED_TYPES = {"_source": "string", "_classification": "string", "_generated"
 # ---- one run: a history with one batch size -----------------------------------------------------------------
 def run_once(ctx, versions, descs, records, plan, bs, path, problems):
     """Write the history with batch size bs under the polling connection.  Appends (part, message, detail) to problems.
-    -> number of records whose write() returned, or None when the run was aborted."""
+    -> (number of records whose write() returned, their indices among the write steps), or None when the run was aborted."""
     from flow.record import RecordWriter
 
     def bad(part, msg, **detail):
@@ -501,6 +549,7 @@ def run_once(ctx, versions, descs, records, plan, bs, path, problems):
     seen = set()
     aborted = False
     ri = 0
+    accepted = []
     for step in plan:
         if step[0] == "f":
             try:
@@ -519,15 +568,31 @@ def run_once(ctx, versions, descs, records, plan, bs, path, problems):
         rec = records[ri]
         ri += 1
         vi = step[1]
+        dkey = (versions[vi][0], tuple(versions[vi][1]))
         try:
             w.write(rec)
         except Exception as e:  # noqa: BLE001
+            if len(step) > 3:
+                # an unmappable record: refusing it is fine; the application catches the error and carries on.  Nothing may
+                # become visible except through the commit that announces a new descriptor (then all k earlier rows)
+                ctx.event("unmappable_refused")
+                ctx.cell("refused", "batch%d" % bs, "accepted_before_mod_bs=%d" % (k % bs if bs < 1000 else min(k, 9)))
+                newdesc = dkey not in seen
+                seen.add(dkey)
+                v = second.total()
+                if v is not None:
+                    if not (v == v_prev or (newdesc and v == k)):
+                        bad("visibility", "a refused record changed what the second connection sees", visible=v, visible_before=v_prev, k=k)
+                    v_prev = v
+                continue
             bad("write-error", "write() raised for a mappable record", exception="%s: %s" % (type(e).__name__, str(e)[:200]),
                 exception_is_sqlite_error=isinstance(e, sqlite3.Error), record_index=k, type=versions[vi][0])
             aborted = True
             break
         k += 1
-        dkey = (versions[vi][0], tuple(versions[vi][1]))
+        accepted.append(ri - 1)
+        if len(step) > 3:
+            ctx.event("unmappable_accepted")
         newdesc = dkey not in seen
         seen.add(dkey)
         v = second.total()
@@ -557,10 +622,10 @@ def run_once(ctx, versions, descs, records, plan, bs, path, problems):
         bad("visibility" if not aborted else "after-abort", "after close() the second connection does not see every record written",
             visible=v, written=k)
     second.close()
-    return None if aborted else k
+    return None if aborted else (k, accepted)
 
 
-def check_content(ctx, versions, records, plan, path, bs, problems):
+def check_content(ctx, versions, records, plan, path, bs, problems, accepted=None):
     """Schema, row order, raw cells and read-back through SqliteReader, against the records written."""
     from flow.record import RecordReader
 
@@ -568,7 +633,11 @@ def check_content(ctx, versions, records, plan, path, bs, problems):
         detail["batch_size"] = bs
         problems.append((part, msg, detail))
 
-    writes = [(step[1], records[i]) for i, step in enumerate(s for s in plan if s[0] == "w")]
+    wsteps = [s for s in plan if s[0] == "w"]
+    acc = set(range(len(wsteps))) if accepted is None else set(accepted)
+    writes = [(step[1], records[i]) for i, step in enumerate(wsteps) if i in acc]
+    skip = {id(records[i]): step[3] for i, step in enumerate(wsteps) if len(step) > 3}  # field holding the unmappable value
+    attempted = {versions[step[1]][0] for step in wsteps}
     per_type = {}
     columns = {}
     ftypes = {}
@@ -586,7 +655,10 @@ def check_content(ctx, versions, records, plan, path, bs, problems):
     except sqlite3.Error as e:
         bad("schema", "sqlite3 cannot dump the database", exception=repr(e)[:300])
         return None
-    if sorted(d["order"]) != sorted(per_type):
+    extra_tables = [t for t in d["order"] if t not in per_type]
+    # a type whose records were all refused may have left its (empty) table behind
+    if (sorted(t for t in d["order"] if t in per_type) != sorted(per_type)
+            or any(t not in attempted or d["tables"][t]["raw"] for t in extra_tables)):
         bad("schema", "the tables are not one per record type name", tables=d["order"], types=sorted(per_type))
     for t, recs in per_type.items():
         tab = d["tables"].get(t)
@@ -606,6 +678,8 @@ def check_content(ctx, versions, records, plan, path, bs, problems):
                     if cell is not None:
                         bad("values", "a column the record's version does not have is not NULL", table=t, row=i, column=cn, cell=repr(cell)[:80])
                     continue
+                if skip.get(id(rec)) == cn:
+                    continue  # an unmappable value that was stored anyway: what it became is not specified
                 ft = ftypes[(t, cn)]
                 wv = getattr(rec, cn)
                 ctx.event("raw_cells_checked")
@@ -662,6 +736,8 @@ def check_content(ctx, versions, records, plan, path, bs, problems):
                     if rv is not None:
                         bad("values", "a field the record's version does not have does not read None", type=t, row=i, field=cn, read=repr(rv)[:80])
                     continue
+                if skip.get(id(rec)) == cn:
+                    continue
                 ft = have[cn]
                 wv = getattr(rec, cn)
                 ctx.cell("value", ft if ft in FAITHFUL else "other:" + ft, "none" if wv is None else "set")
@@ -671,9 +747,178 @@ def check_content(ctx, versions, records, plan, path, bs, problems):
     return d
 
 
+# ---- a reader holds an unfinished SELECT while the writer has to commit ---------------------------------------------
+def exec_locked(ctx, case):
+    """Either flush()/close() raises (the commit could not be made), or everything written is committed: a commit that
+    fails because another connection still reads must never be swallowed."""
+    from flow.record import RecordDescriptor, RecordWriter
+
+    rng = random.Random(case["s"])
+    ctx.state["n"] += 1
+    d = os.path.join(ctx.state["tmp"], "c%d" % ctx.state["n"])
+    os.makedirs(d)
+    path = os.path.join(d, "locked.db")
+    tname = _type_name(rng)
+    names = _unique(rng, _field_name, 2, set())
+    desc = RecordDescriptor(tname, [("string", names[0]), ("varint", names[1])])
+    bs = rng.choice([3, 4, 1000])
+    first = rng.choice([3, 4, 6])  # committed before the reader starts (explicit flush)
+    later = rng.choice([1, 2]) if bs != 1000 else rng.choice([1, 2, 5])  # stay inside a partly filled batch
+    fault_at = case.get("at") or rng.choice(["close", "flush"])
+    ctx.ev()
+    held_open = None
+    returned = 0
+    raised = None
+    w = None
+    try:
+        w = RecordWriter("sqlite://%s?batch_size=%d" % (path, bs))
+        for i in range(first):
+            w.write(desc.recordType(**{names[0]: "r%d" % i, names[1]: i}))
+            returned += 1
+        w.flush()
+        con = getattr(w, "con", None)
+        short = False
+        if con is not None:
+            try:
+                con.execute("PRAGMA busy_timeout = 150")  # only shortens the wait for the lock; without it sqlite3 waits 5 s
+                short = True
+            except sqlite3.Error:
+                pass
+        ctx.event("locked_short_timeout" if short else "locked_default_timeout")
+        held_open = sqlite3.connect(path, timeout=0.1)
+        cur = held_open.execute("SELECT * FROM %s" % _q(tname))
+        cur.fetchone()  # the statement is not finished: this connection keeps its shared lock
+        while (returned + 1) % bs == 0 and later:
+            later -= 1  # never cross a batch boundary while the reader is active (write() itself would have to commit)
+        try:
+            for i in range(first, first + later):
+                if (returned + 1) % bs == 0:
+                    break
+                w.write(desc.recordType(**{names[0]: "r%d" % i, names[1]: i}))
+                returned += 1
+            if fault_at == "flush":
+                w.flush()
+            w.close()
+        except Exception as e:  # noqa: BLE001 - a loud failure is what the statement allows
+            raised = "%s: %s" % (type(e).__name__, str(e)[:200])
+        cur.close()
+        held_open.close()
+        held_open = None
+    except Exception as e:  # noqa: BLE001
+        ctx.violation(None, "locked: the scenario could not be set up", detail={"exception": repr(e)[:300]})
+        if held_open is not None:
+            held_open.close()
+        shutil.rmtree(d, ignore_errors=True)
+        return
+    ctx.nontrivial("locked", case["s"])
+    ctx.event("locked_cases")
+    ctx.event("histories")
+    if raised is not None:
+        ctx.event("locked_commit_raised")
+        # the writer object is dropped only now: whatever its destructor still commits is not judged
+        del w
+    else:
+        ctx.event("locked_commit_returned")
+        del w
+        chk = sqlite3.connect(path)
+        try:
+            n = chk.execute("SELECT count(*) FROM %s" % _q(tname)).fetchall()[0][0]
+        finally:
+            chk.close()
+        if n != returned:
+            ctx.violation(None, "close()/flush() returned normally although the commit was blocked by a reader, and the last batch is gone",
+                          detail={"rows": n, "written": returned, "batch_size": bs, "fault_at": fault_at, "type": tname})
+        else:
+            ctx.event("histories_held")
+    ctx.sample({"case": case, "batch_size": bs, "fault_at": fault_at, "raised": raised}, kind="locked")
+    shutil.rmtree(d, ignore_errors=True)
+
+
+# ---- relative database path and a changing working directory (child process) --------------------------------------------
+CWD_HISTORIES = ["dwwwc", "wdwwc", "wwdwc", "wwwdc", "dwdwdwc", "dwx", "wwdx", "dfwwc"]
+
+
+def exec_cwd(ctx, case):
+    import json
+    import subprocess
+    import sys
+
+    from .. import io_c17 as io17
+    from ..core import VERIF_DIR
+
+    rng = random.Random(case["s"])
+    ctx.state["n"] += 1
+    d = os.path.join(ctx.state["tmp"], "c%d" % ctx.state["n"])
+    dir_a, dir_b = os.path.join(d, "A"), os.path.join(d, "B")
+    for x in (dir_a, dir_b):
+        os.makedirs(os.path.join(x, "export"))
+    jobs, meta = [], []
+    for j, hist in enumerate(rng.sample(CWD_HISTORIES, 4)):
+        bs = rng.choice([1, 2, 1000])
+        rel = "export/out%d.db" % j
+        seed = subseed(case["s"], j)
+        jobs.append({"uri": "sqlite://%s?batch_size=%d" % (rel, bs), "hist": hist, "seed": seed, "shapes": "xy", "cwd": dir_a, "dirs": [dir_a, dir_b]})
+        meta.append((rel, hist, seed, bs))
+    jobs_path, status_path = os.path.join(d, "jobs.json"), os.path.join(d, "status.json")
+    with open(jobs_path, "w") as f:
+        json.dump(jobs, f)
+    env = dict(os.environ)
+    pp = env.get("PYTHONPATH", "")
+    if VERIF_DIR not in pp.split(os.pathsep):
+        env["PYTHONPATH"] = VERIF_DIR + (os.pathsep + pp if pp else "")
+    if env.get("VERIF_REPO"):
+        env["VERIF_REPO"] = os.path.abspath(env["VERIF_REPO"])
+    ctx.ev()
+    status = None
+    try:
+        p = subprocess.run([sys.executable, "-W", "ignore", "-m", "verif.worker_c17", "--state", "plain", jobs_path, status_path], env=env,
+                           cwd=VERIF_DIR, stdin=subprocess.DEVNULL, stdout=subprocess.PIPE, stderr=subprocess.PIPE, timeout=120)
+        with open(status_path) as f:
+            status = json.load(f)
+    except (subprocess.TimeoutExpired, OSError, ValueError):
+        p = None
+    repo = os.path.realpath(os.environ.get("VERIF_REPO", "/repo"))
+    if (status is None or not status.get("done") or p is None or p.returncode != 0
+            or not os.path.realpath(status["flow_record_file"]).startswith(repo + os.sep)):
+        ctx.require(False, "the C18 working-directory child did not report (never a verdict)")
+        shutil.rmtree(d, ignore_errors=True)
+        return
+    ctx.nontrivial("cwd", case["s"])
+    ctx.event("cwd_children")
+    ctx.event("histories")
+    held = True
+    for (rel, hist, seed, bs), js in zip(meta, status["jobs"]):
+        nw = hist.count("w")
+        extra = {"relative_path": rel, "history": hist, "batch_size": bs, "op_errors": js["errors"]}
+        ctx.event("cwd_jobs")
+        ctx.cell("cwd", "chdir_before_first_write" if hist.index("d") < (hist + "w").index("w") else "chdir_later", "bs%d" % bs)
+        if not js.get("created") or js["errors"]:
+            held = False
+            ctx.violation(None, "cwd: the writer failed on a relative database path", detail=dict(extra, error=js.get("create_error")))
+            continue
+        stray = os.path.join(dir_b, rel)
+        if os.path.exists(stray):
+            held = False
+            ctx.violation(None, "cwd: a database appeared relative to a later working directory instead of the one at creation",
+                          detail=dict(extra, stray_size=os.path.getsize(stray)))
+        expected = io17.observe_all(io17.make_records(seed, nw, "xy", generated=io17.fixed_generated(nw)))
+        view = io17.inspect_file("sqlite", None, os.path.join(dir_a, rel))
+        for code, msg, detail in io17.diff_view("sqlite", view, expected):
+            held = False
+            ctx.violation(None, "cwd: the database named at creation: " + msg, detail=dict(extra, **detail))
+    if held:
+        ctx.event("histories_held")
+    ctx.sample({"case": case, "jobs": [m[:2] for m in meta]}, kind="cwd")
+    shutil.rmtree(d, ignore_errors=True)
+
+
 def execute(ctx, case):
     from flow.record import RecordDescriptor
 
+    if case["k"] == "locked":
+        return exec_locked(ctx, case)
+    if case["k"] == "cwd":
+        return exec_cwd(ctx, case)
     versions, plan = build_case(case, thorough=not ctx.quick)
     kind = case["k"]
     collide = collision_in_case(versions, plan)
@@ -702,11 +947,12 @@ def execute(ctx, case):
     for bs in BATCHES:
         ctx.ev()
         path = os.path.join(d, "b%d.db" % bs)
-        k = run_once(ctx, versions, descs, records, plan, bs, path, problems)
+        res = run_once(ctx, versions, descs, records, plan, bs, path, problems)
+        k, accepted = res if res is not None else (None, None)
         ctx.cell("batch", bs, "n<bs" if nrec < bs else ("n%bs=0" if nrec % bs == 0 else "n%bs>0"))
         if k is None:
             continue
-        dd = check_content(ctx, versions, records, plan, path, bs, problems)
+        dd = check_content(ctx, versions, records, plan, path, bs, problems, accepted)
         if dd is not None:
             dumps[bs] = {"order": dd["order"], "tables": {t: {"cols": v["cols"], "rows": v["rows"]} for t, v in dd["tables"].items()}}
     if [observe.obs(r) for r in records] != before:
@@ -813,6 +1059,10 @@ def finish(ctx):
     ctx.require(ev.get("timestamps_equal_instant_other_offset", 0) > 0 and ev.get("timestamps_same_wall_clock_other_fold", 0) > 0
                 and ev.get("raw_timestamp_cells_checked", 0) > 0,
                 "no database held equal-instant timestamps with different offsets and a fold=0/fold=1 pair")
+    ctx.require(ev.get("unmappable_refused", 0) > 0, "no history in which an unmappable record was refused between accepted ones")
+    ctx.require(ev.get("locked_cases", 0) > 0 and ev.get("locked_commit_raised", 0) + ev.get("locked_commit_returned", 0) > 0,
+                "no commit was attempted while another connection held an unfinished SELECT")
+    ctx.require(ev.get("cwd_jobs", 0) > 0, "no relative database path was written under a changing working directory")
     ctx.require(ev.get("type_names_starting_with_sqlite", 0) > 0, "no type name starting with 'sqlite' was written")
     ctx.require(ev.get("versions_not_superset_with_new_field", 0) > 0, "no descriptor evolution with a non-superset version bringing a new field")
     ctx.require(ev.get("read_values_checked", 0) > 0 and ev.get("raw_cells_checked", 0) > 0, "no value was compared after reading back")
